@@ -468,7 +468,7 @@ class YPPythonCodeGenerator:
         self.indent()
         self._enter_loop()
         if loop.loop_code == []:
-            code = [ self.l("pass") ]
+            code = self.l("pass")
         else:
             code = self.generate_code_list(loop.loop_code)
         self._leave_loop()
